@@ -4,7 +4,7 @@
 // Child module of selection/selector.rs: run-length row selections as sets of row positions.
 use super::*;
 
-const K: usize = 3; // selectors
+const K: usize = 2; // selectors
 const RC: usize = 3; // max row_count per selector
 const W: usize = K * RC; // <= 9 rows, fits a u32 mask
 
@@ -46,7 +46,7 @@ fn denote(s: &[RowSelector]) -> (u32, usize) {
 
 //@ tier: quick
 //@ functions: parquet::arrow::arrow_reader::selection::selector::limit_selectors
-//@ bound: every selector list of <= 3 selectors with row_count <= 3 (skip/select arbitrary, zero-length and un-merged selectors included), every limit 0..=10: the denotation of the result is exactly the first `limit` selected positions; unwind 11
+//@ bound: every selector list of <= 2 selectors with row_count <= 3 (skip/select arbitrary, zero-length and un-merged selectors included), every limit 0..=7: the denotation of the result is exactly the first `limit` selected positions; unwind 11
 #[kani::proof]
 #[kani::unwind(11)]
 fn c06_limit_selectors_denotation() {
@@ -67,7 +67,7 @@ fn c06_limit_selectors_denotation() {
         p += 1;
     }
     assert!(mo == exp, "limit keeps exactly the first `limit` selected rows");
-    kani::cover!(limit == 2 && m.count_ones() == 4 && m & 1 == 0, "limit cuts inside a later selector");
+    kani::cover!(limit == 2 && m.count_ones() == 3 && m & 1 == 0, "limit cuts inside a later selector");
     kani::cover!(limit == m.count_ones() as usize && limit > 0, "limit equals the selected count");
     kani::cover!(limit == 0 && m != 0);
     std::mem::forget(out);
@@ -75,7 +75,7 @@ fn c06_limit_selectors_denotation() {
 
 //@ tier: quick
 //@ functions: parquet::arrow::arrow_reader::selection::selector::offset_selectors
-//@ bound: same selector lists, every offset 0..=10: result denotes all but the first `offset` selected positions and (when non-empty) the same total row count; unwind 11
+//@ bound: same selector lists, every offset 0..=7: result denotes all but the first `offset` selected positions and (when non-empty) the same total row count; unwind 11
 #[kani::proof]
 #[kani::unwind(11)]
 fn c06_offset_selectors_denotation() {
@@ -101,14 +101,14 @@ fn c06_offset_selectors_denotation() {
     if exp != 0 {
         assert!(to == total, "row positions are preserved");
     }
-    kani::cover!(offset == 2 && m.count_ones() == 4, "offset cuts inside a selector");
+    kani::cover!(offset == 2 && m.count_ones() == 3, "offset cuts inside a selector");
     kani::cover!(offset as u32 >= m.count_ones() && m != 0, "everything skipped");
     std::mem::forget(out);
 }
 
 //@ tier: quick
 //@ functions: parquet::arrow::arrow_reader::selection::selector::split_off_selectors
-//@ bound: same selector lists, every split row 0..=10: head ++ tail denotes the original selection, head covers min(row_count, total) rows; unwind 11
+//@ bound: same selector lists, every split row 0..=7: head ++ tail denotes the original selection, head covers min(row_count, total) rows; unwind 11
 #[kani::proof]
 #[kani::unwind(11)]
 fn c06_split_off_selectors_denotation() {
